@@ -214,8 +214,73 @@ pub unsafe extern "C" fn nanosleep(req: *const libc::timespec, rem: *mut libc::t
     unsafe { libc::syscall(libc::SYS_nanosleep, req, rem) as libc::c_int }
 }
 
+/// socket time-outs (SO_RCVTIMEO / SO_SNDTIMEO) requested while compression is on: (seconds, microseconds)
+static SOCK_TIMEOUTS: Mutex<Vec<(i64, i64)>> = Mutex::new(Vec::new());
+static COMPRESS_SOCK_TIMEOUTS: AtomicBool = AtomicBool::new(false);
+/// virtual seconds per real second for socket time-outs
+pub const SOCK_TIMEOUT_COMPRESSION: i64 = 100;
+
+/// From now on a socket read/write time-out of T is installed as T/100 (at least 1 ms, at most 1 s) and
+/// recorded: "the feed stayed silent for longer than any time-out the reader set" becomes a sub-second
+/// event. Clears the record.
+pub fn compress_socket_timeouts(on: bool) {
+    SOCK_TIMEOUTS.lock().unwrap().clear();
+    COMPRESS_SOCK_TIMEOUTS.store(on, SeqCst);
+}
+
+/// the time-outs requested since `compress_socket_timeouts(true)`, as installed (microseconds)
+pub fn installed_socket_timeouts_us() -> Vec<i64> {
+    SOCK_TIMEOUTS.lock().unwrap().iter().map(|(s, us)| compressed_us(*s, *us)).collect()
+}
+pub fn requested_socket_timeouts() -> Vec<(i64, i64)> {
+    SOCK_TIMEOUTS.lock().unwrap().clone()
+}
+
+fn compressed_us(s: i64, us: i64) -> i64 {
+    let total = s.saturating_mul(1_000_000).saturating_add(us);
+    (total / SOCK_TIMEOUT_COMPRESSION).clamp(1_000, 1_000_000)
+}
+
+#[unsafe(no_mangle)]
+pub unsafe extern "C" fn setsockopt(fd: libc::c_int, level: libc::c_int, name: libc::c_int, val: *const libc::c_void, len: libc::socklen_t) -> libc::c_int {
+    let mut tv = libc::timeval { tv_sec: 0, tv_usec: 0 };
+    let mut val = val;
+    if level == libc::SOL_SOCKET
+        && (name == libc::SO_RCVTIMEO || name == libc::SO_SNDTIMEO)
+        && COMPRESS_SOCK_TIMEOUTS.load(SeqCst)
+        && !val.is_null()
+        && len as usize >= std::mem::size_of::<libc::timeval>()
+    {
+        let req = unsafe { *(val as *const libc::timeval) };
+        if req.tv_sec != 0 || req.tv_usec != 0 {
+            SOCK_TIMEOUTS.lock().unwrap().push((req.tv_sec as i64, req.tv_usec as i64));
+            let us = compressed_us(req.tv_sec as i64, req.tv_usec as i64);
+            tv.tv_sec = (us / 1_000_000) as libc::time_t;
+            tv.tv_usec = (us % 1_000_000) as libc::suseconds_t;
+            val = &tv as *const libc::timeval as *const libc::c_void;
+        }
+    }
+    unsafe {
+        let r = libc::syscall(libc::SYS_setsockopt, fd as libc::c_long, level as libc::c_long, name as libc::c_long, val, len as libc::c_long);
+        r as libc::c_int
+    }
+}
+
 /// Start-up self test: the interposition must really be linked.
 pub fn self_test() -> Result<(), String> {
+    {
+        // a std socket time-out goes through the interposed setsockopt
+        use std::net::UdpSocket;
+        compress_socket_timeouts(true);
+        let u = UdpSocket::bind("127.0.0.1:0").map_err(|e| format!("self test socket: {e}"))?;
+        u.set_read_timeout(Some(std::time::Duration::from_secs(30))).map_err(|e| format!("self test setsockopt: {e}"))?;
+        let got = u.read_timeout().map_err(|e| e.to_string())?;
+        let rec = requested_socket_timeouts();
+        compress_socket_timeouts(false);
+        if rec != vec![(30, 0)] || got != Some(std::time::Duration::from_millis(300)) {
+            return Err(format!("setsockopt interposition not effective: recorded {rec:?}, installed {got:?}"));
+        }
+    }
     freeze_clock();
     let now = chrono::Utc::now();
     if now.timestamp() != T0_SECS || now.timestamp_subsec_nanos() != 0 {
